@@ -513,23 +513,11 @@ func (l *Lexer) Advance() bool {
 		l.tok = base.STRING
 
 	case '#':
-		nextChar := l.reader.Read()
+		// outside a string literal '#' always starts a comment, also when the
+		// comment text begins with '{'
+		l.skipLineComment()
 
-		switch nextChar {
-		case '{':
-			var buf strings.Builder
-			buf.WriteRune(char)
-			buf.WriteRune(nextChar)
-			str := buf.String()
-			l.val = Intern(str)
-			l.tok = base.UNKNOWN
-
-		default:
-			l.reader.Unread()
-			l.skipLineComment()
-
-			return l.Advance()
-		}
+		return l.Advance()
 
 	default:
 		if unicode.IsDigit(char) {
